@@ -175,6 +175,54 @@ func ruleM2(c *Ctx) {
 
 // ---- M3 post-write invalidation ---------------------------------------------------------------------
 
+// effStore is a store to a field of a method's receiver, made by the method itself (at = the store) or, on every path,
+// by a same-package helper it calls on the same receiver (at = the call in the method).
+type effStore struct {
+	field *types.Var
+	val   ssa.Value
+	at    ssa.Instruction
+}
+
+func (c *Ctx) effectiveStores(fn *ssa.Function, depth int) []effStore {
+	var out []effStore
+	allInstrs(fn, func(in ssa.Instruction) {
+		if st, ok := in.(*ssa.Store); ok {
+			if fa, ok := st.Addr.(*ssa.FieldAddr); ok {
+				out = append(out, effStore{fieldVar(fa.X.Type(), fa.Field), st.Val, in})
+			}
+			return
+		}
+		call, ok := in.(*ssa.Call)
+		if !ok || depth >= 3 {
+			return
+		}
+		callee := helperCallee(fn, &call.Call)
+		if callee == nil || callee.Signature.Recv() == nil || len(fn.Params) == 0 || len(call.Call.Args) == 0 || c.term(call.Call.Args[0]) != c.term(fn.Params[0]) {
+			return
+		}
+		cfi := c.fi(callee)
+		for _, e := range c.effectiveStores(callee, depth+1) {
+			// only what the helper does on every path through it
+			if len(callee.Blocks) > 0 && cfi.postDominates(e.at.Block(), callee.Blocks[0]) {
+				// the stored value must come from the helper's receiver chain too
+				if fa, ok := storeAddrField(e.at); !ok || c.term(fa.X) == c.term(callee.Params[0]) {
+					out = append(out, effStore{e.field, e.val, in})
+				}
+			}
+		}
+	})
+	return out
+}
+
+func storeAddrField(in ssa.Instruction) (*ssa.FieldAddr, bool) {
+	st, ok := in.(*ssa.Store)
+	if !ok {
+		return nil, false
+	}
+	fa, ok := st.Addr.(*ssa.FieldAddr)
+	return fa, ok
+}
+
 func ruleM3(c *Ctx) {
 	c.Rule("M3", "a write invalidates the cache after it has happened: in graphMemoizer.AddTriples/RemoveTriples every cache map is reset on every path after the forwarded write returns (a reset only before the write lets a concurrent lookup re-cache the old state)", 2)
 	gm, _, cacheFields, inner := c.memoAnchors()
@@ -204,28 +252,20 @@ func ruleM3(c *Ctx) {
 		}
 		resetAfter := map[*types.Var]bool{}
 		resetBefore := map[*types.Var]bool{}
-		allInstrs(fn, func(in ssa.Instruction) {
-			st, ok := in.(*ssa.Store)
-			if !ok {
-				return
-			}
-			fa, ok := st.Addr.(*ssa.FieldAddr)
-			if !ok {
-				return
-			}
-			f := fieldVar(fa.X.Type(), fa.Field)
+		for _, e := range c.effectiveStores(fn, 0) {
+			f, in := e.field, e.at
 			if !cacheFields[f] {
-				return
+				continue
 			}
-			if _, isMake := st.Val.(*ssa.MakeMap); !isMake {
-				return
+			if _, isMake := e.val.(*ssa.MakeMap); !isMake {
+				continue
 			}
 			if fi.instrPostDominates(in, write) {
 				resetAfter[f] = true
 			} else if fi.instrDominates(in, write) {
 				resetBefore[f] = true
 			}
-		})
+		}
 		var missing []string
 		for f := range cacheFields {
 			if !resetAfter[f] {
@@ -333,19 +373,20 @@ func ruleM4M5(c *Ctx) {
 		// same map and key for load and store
 		var loads, stores []*types.Var
 		sameKey := true
-		allInstrs(fn, func(in ssa.Instruction) {
+		// directly, or in a same-package accessor / immediately invoked closure the key is handed to
+		walkHelpers(fn, 2, func(_ *ssa.Function, in ssa.Instruction, _ ssa.Instruction) {
 			switch x := in.(type) {
 			case *ssa.Lookup:
 				if f := fieldOfLoad(x.X); f != nil && cacheFields[f] {
 					loads = append(loads, f)
-					if x.Index != ssa.Value(keyCall) {
+					if resolveParam(x.Index) != ssa.Value(keyCall) {
 						sameKey = false
 					}
 				}
 			case *ssa.MapUpdate:
 				if f := fieldOfLoad(x.Map); f != nil && cacheFields[f] {
 					stores = append(stores, f)
-					if x.Key != ssa.Value(keyCall) {
+					if resolveParam(x.Key) != ssa.Value(keyCall) {
 						sameKey = false
 					}
 				}
@@ -387,7 +428,7 @@ func ruleM4M5(c *Ctx) {
 		key4 := funcName(fn) + " caches on success only"
 		var p4 []string
 		nst := 0
-		allInstrs(fn, func(in ssa.Instruction) {
+		walkHelpers(fn, 2, func(inFn *ssa.Function, in ssa.Instruction, top ssa.Instruction) {
 			mu, ok := in.(*ssa.MapUpdate)
 			if !ok {
 				return
@@ -397,7 +438,12 @@ func ruleM4M5(c *Ctx) {
 			}
 			nst++
 			guarded := false
-			for _, ft := range fi.factsAt(mu.Block()) {
+			facts := fi.factsAt(top.Block())
+			if inFn != fn {
+				facts = append(append([]Fact{}, facts...), c.fi(inFn).factsAt(mu.Block())...)
+			}
+			in = top // dominance below is judged in the method itself
+			for _, ft := range facts {
 				bo, ok := ft.Cond.(*ssa.BinOp)
 				if !ok || !isNilConst(bo.Y) {
 					continue
